@@ -264,6 +264,16 @@ def r4(ctx):
                     if l[0] == 'field': names.add(l[2])
                     elif l[0] == 'global': names.add(l[1])
                 sites.append((c, names))
+        # a refusal may also be recorded as a failing exit status (flexend() must not re-enter itself through flexerror: D54)
+        if f.name == 'flexend':
+            res = ir.Resolver(f)
+            for x in f.ins:
+                if x.op == 'store' and res.loc(x.ops[1]) == ('local', 'exit_status.addr') and x.ops[0][0] == 'int' and x.ops[0][1] != 0:
+                    names = set()
+                    for l in flow.controlling_locs(prog, x):
+                        if l[0] == 'field': names.add(l[2])
+                        elif l[0] == 'global': names.add(l[1])
+                    sites.append((x, names))
     rep.require(len(sites) >= 40, 'only %d refusal sites found' % len(sites))
     for label, need in REFUSALS:
         hit = [c for c, names in sites if need <= names]
